@@ -412,9 +412,9 @@ func (c *DefaultCtx) SetContext(ctx context.Context) {
 func (c *DefaultCtx) Cookie(cookie *Cookie) {
 	fcookie := fasthttp.AcquireCookie()
 	fcookie.SetKey(cookie.Name)
-	fcookie.SetValue(cookie.Value)
-	fcookie.SetPath(cookie.Path)
-	fcookie.SetDomain(cookie.Domain)
+	fcookie.SetValue(removeNewLines(cookie.Value))
+	fcookie.SetPath(removeNewLines(cookie.Path))
+	fcookie.SetDomain(removeNewLines(cookie.Domain))
 	// only set max age and expiry when SessionOnly is false
 	// i.e. cookie supposed to last beyond browser session
 	// refer: https://developer.mozilla.org/en-US/docs/Web/HTTP/Cookies#define_the_lifetime_of_a_cookie
@@ -1800,7 +1800,7 @@ func (c *DefaultCtx) String() string {
 // Type sets the Content-Type HTTP header to the MIME type specified by the file extension.
 func (c *DefaultCtx) Type(extension string, charset ...string) Ctx {
 	if len(charset) > 0 {
-		c.fasthttp.Response.Header.SetContentType(utils.GetMIME(extension) + "; charset=" + charset[0])
+		c.fasthttp.Response.Header.SetContentType(utils.GetMIME(extension) + "; charset=" + removeNewLines(charset[0]))
 	} else {
 		c.fasthttp.Response.Header.SetContentType(utils.GetMIME(extension))
 	}
